@@ -210,6 +210,9 @@ Inductive op :=
 | OTxn (ks : list part) (aorder uorder : list lock)     (* Store.ExecuteTransaction; aorder = order in which the
                                                            datasets are locked, uorder = order of the updateDataset
                                                            loop: both are Go map iterations, observed not predicted *)
+| OTxnFail (locked : list lock)                         (* ExecuteTransaction naming a dataset that does not exist: the datasets
+                                                           visited before the missing one are locked (observed), then the error
+                                                           return releases them (deferred unlocks); nothing is written *)
 | OCreate (d : N) (isnew : bool)                        (* DsManager.CreateDataset *)
 | ORename (d : N) (m : rename_mode)                     (* DsManager.UpdateDataset *)
 | ODelete (d : N) (present : bool).                     (* DsManager.DeleteDataset *)
@@ -248,6 +251,11 @@ Definition prog_of_op (v : variant) (o : op) : list instr :=
       match v_core v with
       | CoreRejected => if memb LCore (part_keys ks) then [] else txn_prog ks ao uo
       | CoreLocks => txn_prog ks ao uo
+      end
+  | OTxnFail locked =>
+      match v_core v with
+      | CoreRejected => if memb LCore locked then [] else map Acq locked ++ map Rel (rev locked)
+      | CoreLocks => map Acq locked ++ map Rel (rev locked)
       end
   | OCreate d isnew => [Acq LDsm] ++ (if isnew then core_update d else []) ++ [Rel LDsm]
   | ORename d RNoop => [Acq LDsm; Rel LDsm]
@@ -293,11 +301,18 @@ Definition op_wf (v : variant) (o : op) : bool :=
       permb ao (part_keys ks) && permb uo (part_keys ks)
       && negb (memb LDsm (part_keys ks))
       && match v_order v with Sorted => name_sortedb ao | Arbitrary => true end
+  | OTxnFail locked =>
+      nodupb locked && negb (memb LDsm locked)
+      && match v_order v with Sorted => name_sortedb locked | Arbitrary => true end
   | _ => true
   end.
 (** the operation does not put core.Dataset into a transaction *)
 Definition op_no_core_txn (o : op) : bool :=
-  match o with OTxn ks _ _ => negb (memb LCore (part_keys ks)) | _ => true end.
+  match o with
+  | OTxn ks _ _ => negb (memb LCore (part_keys ks))
+  | OTxnFail locked => negb (memb LCore locked)
+  | _ => true
+  end.
 
 (** ** Executable replay of an observed global lock trace *)
 Inductive ev := EA (l : lock) | ER (l : lock).
